@@ -9,7 +9,7 @@ template-shaped sources), Xunitary and Xcov, with histories device A -> device B
 Oracle: either CircuitError/ValueError - only where the reference deems the source inadmissible or out of range - or
 a circuit that matches the layout wire by wire (own matcher), has every matched parameter inside the device range,
 and prepares the same Gaussian state of the measured modes (exactly for Xunitary/Xstrict, up to local phases for
-Xcov).  Time-domain devices: TDM programs against a single-loop layout with parameter arrays over a small alphabet.
+Xcov).  Time-domain devices: Borealis compilation (loop-offset insertion, phase compensation), see c12b.py.
 """
 import itertools
 import textwrap
@@ -414,6 +414,10 @@ def work_strict(task):
 
 
 def _dispatch(task):
+    if task[0] == "borealis":
+        from mc.checks import c12b
+
+        return c12b.work(task[1])
     return work_strict(task[1]) if task[0] == "strict" else work(task[1])
 
 
@@ -432,6 +436,12 @@ def run(ctx):
     # device A -> device B on the same compiler class
     tasks.append(("x", (2, {"sq": "set01"}, "Xunitary", [("S2(1)", "S2(1)")], ["Interferometer"], ["all"], False, (1, {"sq": "set01"}))))
     tasks.append(("x", (1, {"sq": "set01"}, "Xcov", [("S2(1)",)], ["Interferometer"], ["all"], False, (2, {"sq": "set01"}))))
+    from mc.checks import c12b
+
+    bc = c12b.cases(quick)
+    for i in range(0, len(bc), 4):
+        tasks.append(("borealis", bc[i : i + 4]))
+    ctx.cov["borealis_cases"] = len(bc)
     for r in ctx.pmap(_dispatch, tasks):
         ctx.add(r)
         if ctx.time_left() < 0:
@@ -447,6 +457,10 @@ def run(ctx):
 
 def replay(case):
     res = Res()
+    if case.get("borealis"):
+        from mc.checks import c12b
+
+        return c12b.replay(case)
     if case.get("strict"):
         r = work_strict((case["H"], case["dev"]))
         return [(s, w) for s, w, c in r.viol if c["sq"] == case["sq"] and c["phase"] == case["phase"]]
